@@ -46,6 +46,7 @@ var scratch string
 type caseState struct {
 	fl *flowsState
 	po *policyState
+	di *dispState
 }
 
 func exec(c proto.Case, o *proto.Out) []string {
@@ -83,8 +84,29 @@ func exec(c proto.Case, o *proto.Out) []string {
 			} else if w[0] == "fleak" && a != "leaked=0" && a != "bad-op" {
 				o.Count("flows-case-with-leaked-counter")
 			}
-		case "pcfg", "presp", "adv", "jump":
-			a = policyOp(st, w)
+		case "pcfg", "presp", "adv", "jump", "pbulk", "dcfg", "dreq", "dresp":
+			if w[0][0] == 'd' {
+				a = dispatchOp(st, w)
+			} else {
+				a = policyOp(st, w)
+			}
+			if w[0] == "pbulk" {
+				o.Count("policy-bulk")
+				if strings.HasPrefix(a, "bulk") {
+					nHdr++
+				}
+			}
+			if w[0] == "dreq" || w[0] == "dresp" {
+				if strings.Contains(a, "retry after=") {
+					nHdr++
+					o.Count("dispatch-" + w[0] + "-retry")
+				} else if st.po != nil && st.po.lastInRange && strings.HasSuffix(a, "noop") {
+					nInNoop++
+					o.Count("dispatch-" + w[0] + "-noop-in-range")
+				} else {
+					o.Count("dispatch-" + w[0] + "-" + strings.Fields(a)[0])
+				}
+			}
 			if w[0] == "presp" {
 				if strings.HasPrefix(a, "retry") {
 					nHdr++
@@ -242,7 +264,7 @@ func genFlowsEngine(r *prng.R, ln int) []string {
 var gaps = []int64{0, 1, 1_000_000_000, 20_000_000_000, 30_999_999_999, 31_000_000_000, 31_000_000_001,
 	32_000_000_000, 33_000_000_000, 35_999_999_999, 36_000_000_000, 36_000_000_001, 100_000_000_000}
 
-func genPolicy(r *prng.R, ln int) []string {
+func genPolicy(r *prng.R, ln int, disp bool) []string {
 	att := r.Range(1, 4)
 	if r.Chance(10) {
 		att = r.Range(-1, 0)
@@ -252,6 +274,16 @@ func genPolicy(r *prng.R, ln int) []string {
 	rg := prng.Pick(r, []string{"500-599", "500-502,504-599", "429-429,500-599", "-", "503-500", "500-500"})
 	ops := []string{fmt.Sprintf("pcfg attempts=%d cooldown=%d mult=%d ranges=%s t0=%d", att, cd, mu, rg,
 		1_700_000_000_000_000_000+int64(r.Intn(1_000_000_000)))}
+	early := 0
+	if disp {
+		// through the real dispatcher: some attempts are answered early by the gateway itself
+		early = prng.Pick(r, []int{429, 500, 503, 599, 404})
+		if r.Chance(60) {
+			rg = prng.Pick(r, []string{"429-429,500-599", "400-599", "500-599"})
+		}
+		ops = []string{fmt.Sprintf("dcfg attempts=%d cooldown=%d mult=%d ranges=%s early=%d t0=%d", att, cd, mu, rg, early,
+			1_700_000_000_000_000_000+int64(r.Intn(1_000_000_000)))}
+	}
 	nseq := r.Range(1, 4)
 	pool := append([]string{}, seqNames[:nseq]...)
 	next := 5
@@ -286,8 +318,56 @@ func genPolicy(r *prng.R, ln int) []string {
 			id = s + "-r0" // a sequence whose first response is never seen
 		}
 		started[s]++
+		if disp {
+			switch x := r.Intn(100); {
+			case x < 55:
+				ops = append(ops, fmt.Sprintf("dreq id=%s seq=%s early=1", id, s))
+			case x < 65:
+				started[s]--
+				ops = append(ops, fmt.Sprintf("dreq id=%s seq=%s early=0", id, s))
+			default:
+				ops = append(ops, fmt.Sprintf("dresp id=%s seq=%s status=%d", id, s, st))
+			}
+			continue
+		}
 		ops = append(ops, fmt.Sprintf("presp id=%s seq=%s status=%d", id, s, st))
 	}
+	return ops
+}
+
+// genBulk: thousands of background sequences in flight (one eligible first response each) around a
+// few target sequences that stored their state earlier and keep failing.
+func genBulk(r *prng.R) []string {
+	att := r.Range(3, 5)
+	ops := []string{fmt.Sprintf("pcfg attempts=%d cooldown=%d mult=1 ranges=500-599 t0=%d", att, r.Range(0, 2),
+		1_700_000_000_000_000_000+int64(r.Intn(1_000_000_000)))}
+	targets := []string{"t1", "t2", "t3"}[:r.Range(1, 3)]
+	cnt := map[string]int{}
+	resp := func(t string) {
+		id := t
+		if cnt[t] > 0 {
+			id = fmt.Sprintf("%s-r%d", t, cnt[t])
+		}
+		cnt[t]++
+		ops = append(ops, fmt.Sprintf("presp id=%s seq=%s status=500", id, t))
+	}
+	for _, t := range targets {
+		resp(t)
+	}
+	total := r.Range(4100, 4600)
+	chunks := r.Range(1, 3)
+	for c := 0; c < chunks; c++ {
+		ops = append(ops, fmt.Sprintf("pbulk n=%d prefix=bg%d status=500", total/chunks+1, c))
+		if r.Chance(50) {
+			resp(prng.Pick(r, targets))
+		}
+	}
+	for i := 0; i < (att+3)*len(targets); i++ {
+		resp(prng.Pick(r, targets))
+	}
+	// a late background sequence continues too
+	ops = append(ops, fmt.Sprintf("presp id=late seq=bg%d-%d status=500", chunks-1, total/chunks))
+	ops = append(ops, "presp id=late2 seq=bg0-0 status=500")
 	return ops
 }
 
@@ -298,6 +378,14 @@ func gen(r *prng.R, f proto.Flags, emit func(proto.Case)) {
 	}
 	n *= f.Budget
 	id := 0
+	nb := 1
+	if f.Tier == "thorough" {
+		nb = 4
+	}
+	for k := 0; k < nb*f.Budget && k < 8; k++ {
+		id++
+		emit(proto.Case{ID: fmt.Sprintf("b%d", id), Ops: genBulk(r.Fork())})
+	}
 	for k := 0; k < n; k++ {
 		rr := r.Fork()
 		ln := rr.Range(3, 34)
@@ -307,8 +395,10 @@ func gen(r *prng.R, f proto.Flags, emit func(proto.Case)) {
 			ops = genFlowsDirect(rr, ln)
 		case x < 55:
 			ops = genFlowsEngine(rr, ln)
+		case x < 82:
+			ops = genPolicy(rr, ln, false)
 		default:
-			ops = genPolicy(rr, ln)
+			ops = genPolicy(rr, ln, true)
 		}
 		if rr.Chance(2) {
 			ops = append(ops, prng.Pick(rr, []string{"fx", "presp seq=s1", "nonsense 1 2", "adv ns=x", "fproc name=Z attempts=q"}))
